@@ -235,8 +235,272 @@ def check_small_functions(ctx, rep, rng, tier):
     return cnt
 
 
-READER_PARTS = [check_packinfo_read, check_small_functions]
-WRITER_PARTS = [check_packinfo_write, check_small_functions]
+# ------------------------------------------------------------------ Folder, UnpackInfo
+def coder_state(c):
+    return [list(c["method"]), c["numinstreams"], c["numoutstreams"], [] if c["properties"] is None else [list(c["properties"])]]
+
+
+def folder_state(f):
+    return [list(f.unpacksizes), [coder_state(c) for c in f.coders], [[b.incoder, b.outcoder] for b in f.bindpairs],
+            list(f.packed_indices), bool(f.solid), bool(f.digestdefined), [] if f.crc is None else [f.crc]]
+
+
+def folder_from_state(st):
+    f = ai.Folder()
+    f.unpacksizes = list(st[0])
+    f.coders = [{"method": bytes(c[0]), "numinstreams": c[1], "numoutstreams": c[2],
+                 "properties": bytes(c[3][0]) if c[3] else None} for c in st[1]]
+    f.bindpairs = [ai.Bond(a, b) for a, b in st[2]]
+    f.packed_indices = list(st[3])
+    f.solid, f.digestdefined, f.crc = st[4], st[5], (st[6][0] if st[6] else None)
+    return f
+
+
+def unpackinfo_state(u):
+    return [u.numfolders, [folder_state(f) for f in u.folders], [] if u.datastreamidx is None else [u.datastreamidx]]
+
+
+def norm_folder_tree(t):
+    return [t[0], [[c[0], c[1], c[2], c[3]] for c in t[1]], t[2], t[3], t[4] == 1, t[5] == 1, t[6]]
+
+
+def rnd_coder(rng, simple=True):
+    nin, nout = (1, 1) if simple else (rng.choice([1, 2, 2, 3]), rng.choice([1, 1, 2]))
+    method = bytes(rng.randrange(256) for _ in range(rng.choice([1, 1, 3, 4, 15, 16, 17, 0])))
+    props = None if rng.random() < 0.4 else bytes(rng.randrange(256) for _ in range(rng.choice([0, 1, 5, 130])))
+    return [list(method), nin, nout, [list(props)] if props is not None else []]
+
+
+def rnd_folder(rng, consistent=True):
+    n = rng.choice([1, 1, 1, 2, 3, 4])
+    coders = [rnd_coder(rng, simple=rng.random() < 0.8) for _ in range(n)]
+    tin, tout = sum(c[1] for c in coders), sum(c[2] for c in coders)
+    bonds = [[rng.randrange(0, max(tin, 1)), rng.randrange(0, max(tout, 1))] for _ in range(max(tout - 1, 0))]
+    npacked = tin - (tout - 1)
+    packed = [rng.randrange(0, max(tin, 1)) for _ in range(max(npacked, 0))]
+    us = [rnd_u(rng) for _ in range(tout)]
+    st = [us, coders, bonds, packed, False, rng.random() < 0.3, [rng.getrandbits(32)] if rng.random() < 0.5 else []]
+    if not consistent:
+        k = rng.randrange(4)
+        if k == 0 and coders:
+            coders[0][1] = rng.choice([-1, 1 << 64, 0])
+        elif k == 1 and bonds:
+            bonds[0][0] = rng.choice([-1, 1 << 64])
+        elif k == 2:
+            st[3] = packed + [rng.choice([5, -1, 1 << 64])]
+        else:
+            st[0] = us + [rng.choice([-3, 1 << 64])]
+    return st
+
+
+class _TooBig(Exception):
+    pass
+
+
+def _num(f, bound=MAXCOUNT):
+    v = ai.read_uint64(f)
+    if v > bound:
+        raise _TooBig()
+    return v
+
+
+def _scan_folder(f):
+    """walk a Folder record the way Folder._read does; _TooBig when a number that becomes a loop bound is large (the extracted
+    generated code materialises range(n), CPython does not)"""
+    nc = _num(f, 2000)
+    tin = tout = 0
+    for _ in range(nc):
+        b = ord(f.read(1))
+        f.read(b & 15)
+        if b & 0x10:
+            tin += _num(f, 5000)
+            tout += _num(f, 5000)
+        else:
+            tin, tout = tin + 1, tout + 1
+        if b & 0x20:
+            f.read(_num(f, 100000))      # file.read(n): the extracted code computes Z.to_nat n
+    for _ in range(tout - 1):
+        ai.read_uint64(f)
+        ai.read_uint64(f)
+    if tin - (tout - 1) != 1:
+        for _ in range(tin - (tout - 1)):
+            ai.read_uint64(f)
+    return tout
+
+
+def folder_input_ok(bs):
+    try:
+        _scan_folder(io.BytesIO(bs))
+    except _TooBig:
+        return False
+    except Exception:  # noqa  (the record ends early: so does the real parser, with the counts seen so far below the bound)
+        pass
+    return True
+
+
+def unpackinfo_input_ok(bs):
+    f = io.BytesIO(bs)
+    try:
+        if f.read(1) != b"\x0b":
+            return True
+        nf = _num(f, 300)
+        if f.read(1) != b"\x00":
+            return True
+        for _ in range(nf):
+            _scan_folder(f)
+    except _TooBig:
+        return False
+    except Exception:  # noqa
+        pass
+    return True
+
+
+def check_folder(ctx, rep, rng, tier):
+    if not available(ctx, "gen_Folder_retrieve"):
+        return 0
+    model = ctx["model"]
+    cnt = 0
+    inputs = [b"", b"\x00", b"\x01", b"\x01\x00", b"\x01\x01\x21", b"\x01\x21\x21\x01\x18", b"\x02\x01\x00\x01\x03",
+              b"\x01\x31\x07\x02\x01\x02\x00\x01\x01\x01", b"\x01\x11\x07\x03\x01\x00\x01\x02"]
+    for i in range(700 if tier == "quick" else 20000):
+        st = rnd_folder(rng, consistent=(i % 4 != 0))
+        f = folder_from_state(st)
+        buf = io.BytesIO()
+        try:
+            f.write(buf)
+            want = [0, list(buf.getvalue())]
+        except Exception as e:  # noqa
+            want = [1, err_code(e)]
+        got = model.call("gen_Folder_write", st)
+        cnt += 1
+        rep.dist("translation_Folder_write", "ok" if want[0] == 0 else "err%d" % want[1])
+        if got != want:
+            _violation(rep, "the function translated from Folder.write disagrees with the Python on the object %r: generated %r, "
+                            "Python %r" % (st, got, want), {"object": st}, "Folder.write")
+            return cnt
+        if want[0] == 0:
+            body = bytes(want[1]) + bytes(rng.randrange(256) for _ in range(rng.choice([0, 0, 2])))
+            inputs.append(body)
+            inputs.append(mutate(rng, body))
+        if i % 9 == 0:
+            inputs.append(bytes(rng.randrange(256) for _ in range(rng.randrange(0, 14))))
+    for bs in inputs:
+        if not folder_input_ok(bs):
+            continue
+        f = io.BytesIO(bs)
+        try:
+            o = ai.Folder.retrieve(f)
+            want = [0, [folder_state(o), list(f.read())]]
+        except (MemoryError, OverflowError):
+            continue
+        except Exception as e:  # noqa
+            want = [1, err_code(e)]
+        if want[0] == 0 and (len(want[1][0][2]) > 5000 or len(want[1][0][3]) > 5000):
+            continue
+        got = model.call("gen_Folder_retrieve", list(bs))
+        if got[0] == 0:
+            got = [0, [norm_folder_tree(got[1][0]), got[1][1]]]
+        cnt += 1
+        rep.dist("translation_Folder_read", "ok" if want[0] == 0 else "err%d" % want[1])
+        if got != want:
+            _violation(rep, "the function translated from Folder._read disagrees with the Python on %s: generated %r, Python %r" % (
+                bs.hex(), got, want), {"input": bs.hex()}, "Folder._read")
+            return cnt
+    return cnt
+
+
+def rnd_unpackinfo(rng, consistent=True):
+    n = rng.choice([0, 1, 1, 2, 3])
+    folders = [rnd_folder(rng) for _ in range(n)]
+    st = [n, folders, []]
+    if not consistent:
+        st[0] = n + rng.choice([-1, 1])
+    return st
+
+
+def unpackinfo_from_state(st):
+    u = ai.UnpackInfo()
+    u.numfolders, u.folders, u.datastreamidx = st[0], [folder_from_state(f) for f in st[1]], (st[2][0] if st[2] else None)
+    return u
+
+
+def check_unpackinfo_write(ctx, rep, rng, tier):
+    if not available(ctx, "gen_UnpackInfo_write"):
+        return 0
+    model = ctx["model"]
+    cnt = 0
+    for i in range(500 if tier == "quick" else 15000):
+        st = rnd_unpackinfo(rng, consistent=(i % 5 != 0))
+        with_crcs = rng.random() < 0.4
+        buf = io.BytesIO()
+        try:
+            unpackinfo_from_state(st).write(buf, with_crcs)
+            want = [0, list(buf.getvalue())]
+        except Exception as e:  # noqa
+            want = [1, err_code(e)]
+        got = model.call("gen_UnpackInfo_write", [st, with_crcs])
+        cnt += 1
+        rep.dist("translation_UnpackInfo_write", ("crcs-" if with_crcs else "") + ("ok" if want[0] == 0 else "err%d" % want[1]))
+        if got != want:
+            _violation(rep, "the function translated from UnpackInfo.write disagrees with the Python on the object %r (with_crcs=%r): "
+                            "generated %r, Python %r" % (st, with_crcs, got, want), {"object": st, "with_crcs": with_crcs},
+                       "UnpackInfo.write")
+            return cnt
+    return cnt
+
+
+def check_unpackinfo_read(ctx, rep, rng, tier):
+    if not available(ctx, "gen_UnpackInfo_retrieve"):
+        return 0
+    model = ctx["model"]
+    cnt = 0
+    inputs = [b"", b"\x0b", b"\x0b\x00\x00\x0c\x00", b"\x0b\x00\x00\x0c", b"\x0b\x00\x01", b"\x0c", b"\x0b\x01\x00\x01\x01\x21\x0c\x05\x00",
+              b"\x0b\x01\x00\x01\x01\x21\x0c\x05\x0a\x01\x78\x56\x34\x12\x00Z", b"\x0b\x01\x00\x01\x01\x21\x0c\x05\x0a\x00\x00\x00"]
+    for i in range(500 if tier == "quick" else 15000):
+        st = rnd_unpackinfo(rng)
+        for f in st[1]:
+            f[5] = rng.random() < 0.5
+            f[6] = [rng.getrandbits(32)] if f[5] or rng.random() < 0.3 else []
+        buf = io.BytesIO()
+        try:
+            unpackinfo_from_state(st).write(buf, rng.random() < 0.6)
+        except Exception:  # noqa
+            continue
+        body = buf.getvalue()[1:] + bytes(rng.randrange(256) for _ in range(rng.choice([0, 0, 2])))
+        inputs.append(body)
+        inputs.append(mutate(rng, body))
+        inputs.append(mutate(rng, mutate(rng, body)))
+    for bs in inputs:
+        if not unpackinfo_input_ok(bs):
+            continue
+        f = io.BytesIO(bs)
+        try:
+            o = ai.UnpackInfo.retrieve(f)
+            want = [0, [unpackinfo_state(o), list(f.read())]]
+        except (MemoryError, OverflowError):
+            continue
+        except Exception as e:  # noqa
+            want = [1, err_code(e)]
+        if want[0] == 0 and any(len(x[2]) > 3000 or len(x[3]) > 3000 or len(x[0]) > 3000 for x in want[1][0][1]):
+            continue
+        got = model.call("gen_UnpackInfo_retrieve", list(bs))
+        if got == [1, 4]:
+            rep.dist("translation_UnpackInfo_read", "external-folder-stream (not translated)")
+            continue      # the branch with an external folder stream (file.seek) is not translated: Err EUnsupported
+        if got[0] == 0:
+            u = got[1][0]
+            got = [0, [[u[0], [norm_folder_tree(x) for x in u[1]], u[2]], got[1][1]]]
+        cnt += 1
+        rep.dist("translation_UnpackInfo_read", "ok" if want[0] == 0 else "err%d" % want[1])
+        if got != want:
+            _violation(rep, "the function translated from UnpackInfo._read disagrees with the Python on %s: generated %r, Python %r" % (
+                bs.hex(), got, want), {"input": bs.hex()}, "UnpackInfo._read")
+            return cnt
+    return cnt
+
+
+READER_PARTS = [check_packinfo_read, check_small_functions, check_folder, check_unpackinfo_read]
+WRITER_PARTS = [check_packinfo_write, check_small_functions, check_folder, check_unpackinfo_write]
 
 
 def _run(ctx, rep, rng, tier, parts, label):
